@@ -70,7 +70,7 @@ def main():
         sys.exit(1)
     dst = os.path.join("/verif/seeded", name)
     shutil.rmtree(dst, ignore_errors=True)
-    shutil.copytree(out, dst)
+    shutil.copytree(out, dst, ignore=shutil.ignore_patterns("target", "target_clean", "target*", "work", "*.log"))
     meta = {}
     mp = os.path.join(dst, "meta.json")
     if os.path.exists(mp):
